@@ -96,11 +96,11 @@ def serve_owner(line, pid, msg):
 
 ENGINES["serve"] = dict(
     drv="serve", diverge_owner=serve_owner, starts=("sv6", "sv4", "svstart"), trivial=r"$^", noshrink=True,
-    branches=["serve.start.empty", "serve.start.other", "serve.start.dns", "serve.sv6.q.procs1", "serve.sv6.l.procs1", "serve.sv6.q.procsn", "serve.sv6.l.procsn", "serve.sv4.q.procs1", "serve.sv4.l.procs1", "serve.sv4.q.procsn", "serve.sv4.l.procsn", "serve.answered"],
+    branches=["serve.start.empty", "serve.start.other", "serve.start.dns", "serve.l2-burst", "serve.sv6.q.procs1", "serve.sv6.l.procs1", "serve.sv6.q.procsn", "serve.sv6.l.procsn", "serve.sv4.q.procs1", "serve.sv4.l.procs1", "serve.sv4.q.procsn", "serve.sv4.l.procsn", "serve.answered"],
 )
 
 ENGINES["chain"] = dict(drv="chain", starts=("ccfg",), trivial=r"=> drop$", branches=["chain.cfg4.ok", "chain.cfg6.ok", "chain.drop", "chain.send"])
-ENGINES["allocc"] = dict(drv="alloc", starts=("new6", "new4"), trivial=r"$^", branches=["batch", "arace", "afrace"], noshrink=True)
+ENGINES["allocc"] = dict(drv="alloc", starts=("new6", "new4"), trivial=r"$^", branches=["batch", "arace", "afrace", "achurn"], noshrink=True)
 ENGINES["rangec"] = dict(drv="range", starts=("rsetup",), trivial=r"$^", branches=["batch"], noshrink=True)
 ENGINES["prefixc"] = dict(drv="prefix", starts=("psetup",), trivial=r"$^", branches=["batch", "prefix.prace"], noshrink=True)
 ENGINES["dispatch4c"] = dict(drv="dispatch4", starts=(), trivial=r"=> U ; drop ; inv -$", branches=[])
@@ -175,12 +175,13 @@ PROPS = {
                      "'never blocks forever' is covered as: no modelled step waits on anything but a mutex, and every mutex is released"],
     ),
     "C16": dict(
-        engines=[("allocc", 3000, 60000), ("rangec", 1500, 20000), ("prefixc", 3000, 60000), ("dispatch4c", 3000, 60000), ("filec", 40, 250), ("serve", 8, 80)],
+        engines=[("allocc", 3000, 60000), ("rangec", 1500, 20000), ("prefixc", 3000, 60000), ("dispatch4c", 3000, 60000), ("filec", 40, 250), ("serve", 12, 80)],
+        race_quick=[("serve", 8), ("allocc", 300), ("prefixc", 200)],
         theorems=["C16_alloc6_any_schedule", "C16_alloc4_any_schedule", "C16_range_any_schedule", "C16_prefix_any_schedule", "C16_file_any_schedule"],
         modules=["CoreDhcp.Props.C16"],
         facts=["F1", "F2", "F4", "F10", "F11"],
         race=True,
-        trusted_base=["the Go memory model, scheduler and sync.Mutex; the race detector (thorough tier) supports data-race freedom, it proves nothing",
+        trusted_base=["the Go memory model, scheduler and sync.Mutex; the race detector (thorough tier: every concurrent engine; quick tier: the serve engine's start-up and link-layer bursts and short allocator / prefix bursts) supports data-race freedom, it proves nothing",
                       "fact F1 (lock discipline) and F4 (receive buffer returned to the pool after parsing, never touched again) are syntactic checks of the source"],
         assumptions=["each handler of a stateful plugin is one atomic step (fact F1)",
                      "concurrent batches are judged by searching a one-at-a-time order under which the Lean model accepts every outcome (linearisability check against the model)"],
